@@ -36,6 +36,11 @@ type UConn struct {
 	clientHelloBuildStatus ClientHelloBuildStatus
 	clientHelloSpec        *ClientHelloSpec
 
+	// presetApplied is true once buildHandshakeState has applied the preset of
+	// the ClientHelloID. The preset is applied only once, also when the first
+	// build was BuildHandshakeStateWithoutSession.
+	presetApplied bool
+
 	HandshakeState PubClientHandshakeState
 
 	greaseSeed [ssl_grease_last_index]uint16
@@ -126,9 +131,25 @@ func (uconn *UConn) buildHandshakeState(loadSession bool) error {
 	} else {
 		uAssert(uconn.clientHelloBuildStatus == BuildByUtls || uconn.clientHelloBuildStatus == NotBuilt, "BuildHandshakeState failed: invalid call, client hello has already been built by go-tls")
 		if uconn.clientHelloBuildStatus == NotBuilt {
-			err := uconn.applyPresetByID(uconn.ClientHelloID)
-			if err != nil {
-				return err
+			if !uconn.presetApplied {
+				err := uconn.applyPresetByID(uconn.ClientHelloID)
+				if err != nil {
+					return err
+				}
+				// HelloCustom has no preset of its own (the caller applies one)
+				uconn.presetApplied = uconn.clientHelloSpec != nil
+			} else {
+				// The preset was already applied by an earlier
+				// BuildHandshakeStateWithoutSession. Applying it again would
+				// discard the key share private keys while the key share
+				// extension keeps the public keys generated the first time,
+				// and would replace the random, session id and GREASE values
+				// the caller has inspected. Keep the ClientHello and only pick
+				// up a session extension set in the meantime.
+				err := uconn.sessionController.syncSessionExts()
+				if err != nil {
+					return err
+				}
 			}
 			if uconn.omitSNIExtension {
 				uconn.removeSNIExtension()
